@@ -1,0 +1,35 @@
+//go:build verif
+
+package iscp
+
+import "github.com/aptpod/iscp-go/transport"
+
+// This file is compiled only with the build tag `verif`. It exposes, for the
+// deterministic-simulation harness, seams that already exist in the package
+// but are unexported. It adds no behaviour.
+
+// VerifRegisterDialer registers a dialer factory under a custom transport name.
+func VerifRegisterDialer(name TransportName, f func() transport.Dialer) {
+	customDialFuncs[name] = f
+}
+
+// VerifUnregisterDialer removes a dialer factory registered by VerifRegisterDialer.
+func VerifUnregisterDialer(name TransportName) {
+	delete(customDialFuncs, name)
+}
+
+// VerifSetRandomString replaces the call-id generator and returns a restore function.
+func VerifSetRandomString(f func() string) (restore func()) {
+	org := randomString
+	randomString = f
+	return func() { randomString = org }
+}
+
+// VerifSentStorage is the unexported sent-chunk storage interface.
+type VerifSentStorage = sentStorage
+
+// VerifNewInmemSentStorage returns the in-memory sent storage that keeps payloads.
+func VerifNewInmemSentStorage() VerifSentStorage { return newInmemSentStorage() }
+
+// VerifNewInmemSentStorageNoPayload returns the in-memory sent storage that drops payloads.
+func VerifNewInmemSentStorageNoPayload() VerifSentStorage { return newInmemSentStorageNoPayload() }
